@@ -42,7 +42,7 @@ _p = None
 LEADS = ['That part of the NE/4', 'A strip of land 100 feet wide across', '']
 TRAILS = ['lying north of the river', 'described as follows: beginning at a point', '']
 SECS = [('Section 14', [14]), ('Sec 1 - 3', [1, 2, 3]), ('Sections 5 and 6', [5, 6]), ('Sec. 36', [36]), ('Secs 9, 10', [9, 10])]
-PLACES = ['before', 'before_nl', 'after_sec', 'of_after_sec', 'end', 'in_after_sec']
+PLACES = ['before', 'before_nl', 'after_sec', 'of_after_sec', 'end', 'in_after_sec', 'between', 'in_between']
 TR = 'T154N-R97W'
 
 
@@ -195,6 +195,10 @@ def sw_text(lead, sec, trail, place):
         t = f"{lead_sec} of {TR} {trail}"
     elif place == 'in_after_sec':
         t = f"{lead_sec} in {TR}, {trail}"
+    elif place == 'between':
+        t = f"{lead}, {TR}, {sec} {trail}"
+    elif place == 'in_between':
+        t = f"{lead} in {TR}, {sec} {trail}"
     else:
         t = f"{lead_sec} {trail}, {TR}"
     return t.strip().rstrip(',').strip()
@@ -203,6 +207,8 @@ def sw_text(lead, sec, trail, place):
 def judge_sw(acc, li, si, ti, place):
     lead, (sec, nums), trail = LEADS[li], SECS[si], TRAILS[ti]
     if not lead and not trail:
+        return
+    if not lead and place in ('between', 'in_between'):
         return
     if not lead and place in ('after_sec', 'of_after_sec', 'in_after_sec'):
         # 'Section 14, T154N-R97W, <text>' is none of the documented layouts and the section is not *embedded* (nothing
